@@ -91,20 +91,30 @@ def wideStringToLong (s : List Nat) : Int :=
   | none => 0
   | some r => if neg then -r else r
 
-/-- `convertHelper(theString, fGotDecimalPoint, …)` -/
-def convertHelper (threshold : Nat) (s : List Nat) (dp : Bool) : Dbl :=
-  if !dp && s.length < threshold then Dbl.ofInt (wideStringToLong s)
+/-- `convertHelper(theString, fGotDecimalPoint, …)`.  `keepSign` selects the form of the fast path
+(`Generated.C18.fastPathKeepsSign`): `false` = `return double(WideStringToLong(s))`; `true` = when the
+long is 0 the result is `-0.0` if the first non-blank character is '-', else `0.0`. -/
+def convertHelperK (keepSign : Bool) (threshold : Nat) (s : List Nat) (dp : Bool) : Dbl :=
+  if !dp && s.length < threshold then
+    let i := wideStringToLong s
+    if keepSign && i == 0 then zero ((s.dropWhile isWs).head? == some cMinus) else Dbl.ofInt i
   else atofModel (s.dropWhile isWs)
 
+def convertHelper (threshold : Nat) (s : List Nat) (dp : Bool) : Dbl := convertHelperK false threshold s dp
+
 /-- `DoubleSupport::toDouble(const XalanDOMChar*)`; the C string ends at the first NUL -/
-def toDoubleT (threshold : Nat) (s0 : List Nat) : Dbl :=
+def toDoubleK (keepSign : Bool) (threshold : Nat) (s0 : List Nat) : Dbl :=
   let s := s0.takeWhile (· ≠ 0)
   if s.isEmpty then .nan
   else
     let (ok, dp) := doValidate2 s
-    if !ok then .nan else convertHelper threshold s dp
+    if !ok then .nan else convertHelperK keepSign threshold s dp
 
-def toDouble (s : List Nat) : Dbl := toDoubleT Generated.C18.longHackThreshold s
+/-- the form before the repair of the fast path -/
+def toDoubleT (threshold : Nat) (s0 : List Nat) : Dbl := toDoubleK false threshold s0
+
+def toDouble (s : List Nat) : Dbl :=
+  toDoubleK (Generated.C18.fastPathKeepsSign == 1) Generated.C18.longHackThreshold s
 
 /-- specification of `number(string)`: nearest double to the numeral (sign kept on zero), NaN otherwise -/
 def toDoubleSpec (s : List Nat) : Dbl :=
@@ -116,6 +126,6 @@ def toDoubleSpec (s : List Nat) : Dbl :=
     let ip := s2.takeWhile isDigit
     let r := s2.dropWhile isDigit
     let fp := if r.head? == some cDot then (r.drop 1).takeWhile isDigit else []
-    roundNE neg (natOfDigits (ip ++ fp)) (10 ^ fp.length)
+    roundRat neg (natOfDigits (ip ++ fp)) (10 ^ fp.length)
 
 end XalanModel.C18
